@@ -88,6 +88,128 @@ def r2_shared_gate(ctx, rule="C13.R2"):
     ctx.require(rule, 5)
 
 
+def _norm(o, subst):
+    """origin without refs / casts / block ids, with the parameters of a helper replaced by the
+    origins of the call's arguments"""
+    o = mir.strip_all(o)
+    k = o[0]
+    if k == "param":
+        return subst.get(o[1], o)
+    if k == "call":
+        return ("call", o[1], tuple(_norm(a, subst) for a in o[2]))
+    if k in ("field", "downcast"):
+        return (k, _norm(o[1], subst)) + tuple(o[2:])
+    if k in ("index",):
+        return (k, _norm(o[1], subst))
+    return o
+
+
+def _show(o):
+    try:
+        return mir.short_origin(mir.Origin(o)) if not isinstance(o, mir.Origin) else mir.short_origin(o)
+    except Exception:
+        return str(o)
+
+
+def _letter_field(o):
+    """('Range', 1) for index(<letter range as Range>.1), else None"""
+    if o[0] != "call" or not o[1].endswith("char_to_alphabet_index") or len(o[2]) != 1:
+        return None
+    a = o[2][0]
+    if a[0] == "field" and a[1][0] == "downcast":
+        try:
+            return (a[1][2], int(a[2]))
+        except (TypeError, ValueError):
+            return None
+    return None
+
+
+def _table_writes(prog, fn, region, subst, depth):
+    """[(lo, hi, inclusive, value)] for every write to `ranges` in the blocks `region` of fn
+    (None = all) and in the helpers it calls there."""
+    body = fn.body
+    pv = mir.Prov(body)
+    out = []
+    blocks = range(body.nblocks) if region is None else sorted(region)
+    defs = body.defs()
+
+    def base_local(l):
+        seen = set()
+        while l not in seen:
+            seen.add(l)
+            ds = [d for d in defs.get(l, []) if not body.is_cleanup(d[0])]
+            if len(ds) == 1 and ds[0][1] != "T" and ds[0][2]["r"]["k"] == "use":
+                p = mir.op_place(ds[0][2]["r"]["o"])
+                if p is not None and not p[1]:
+                    l = p[0]
+                    continue
+            break
+        return l
+
+    for b in blocks:
+        if body.is_cleanup(b):
+            continue
+        for st in body.blocks[b]["s"]:
+            if st["k"] != "assign":
+                continue
+            proj = st["p"][1]
+            if not any(isinstance(e, dict) and e.get("n") == "ranges" for e in proj):
+                continue
+            idx = [e for e in proj if isinstance(e, dict) and "i" in e]
+            if not idx:
+                continue
+            val = _norm(pv.of_operand(st["r"]["o"]), subst) if st["r"]["k"] == "use" else ("unknown",)
+            x = base_local(idx[0]["i"])
+            ds = [d for d in defs.get(x, []) if not body.is_cleanup(d[0])]
+            if len(ds) == 1:
+                o = _norm(pv.of_local(x), subst)
+                out.append((o, o, True, val))
+                continue
+            # counting loop: init from a call / value, increment by one, guard x <= y or x < y
+            init = [d for d in ds if not (d[1] != "T" and d[2]["r"]["k"] == "use" and "m" in d[2]["r"]["o"]
+                                           and d[2]["r"]["o"]["m"][1])]
+            lo = None
+            for d in init:
+                lo = _norm(pv._of_call(d[2], d[0], 0) if d[1] == "T" else pv._of_rvalue(d[2]["r"], 0), subst)
+            hi, inc = None, None
+            for b2 in range(body.nblocks):
+                t2 = body.term(b2)
+                if t2["k"] != "switch" or not body.dominates(b2, b):
+                    continue
+                for s2 in body.blocks[b2]["s"]:
+                    r2 = s2.get("r", {})
+                    if s2["k"] == "assign" and r2.get("k") == "bin" and r2["op"] in ("Le", "Lt"):
+                        pa = mir.op_place(r2["a"])
+                        if pa is not None and base_local(pa[0]) == x:
+                            hi = _norm(pv.of_operand(r2["b"]), subst)
+                            inc = r2["op"] == "Le"
+            out.append((lo or ("unknown",), hi or ("unknown",), bool(inc), val))
+        t = body.blocks[b]["t"]
+        if t["k"] != "call":
+            continue
+        cp = t.get("cpath") or ""
+        if cp.endswith("<impl [T]>::fill") and len(t["args"]) == 2:
+            recv = mir.strip_all(pv.of_operand(t["args"][0]))
+            if recv[0] == "call" and recv[1].split("::")[-1] in ("index_mut", "get_mut") and len(recv[2]) == 2 \
+                    and mir.origin_mentions(recv[2][0], lambda z: z[0] == "field" and z[2] == "ranges"):
+                rng = mir.strip_all(recv[2][1])
+                val = _norm(pv.of_operand(t["args"][1]), subst)
+                if rng[0] == "call" and rng[1].endswith("RangeInclusive::<Idx>::new"):
+                    out.append((_norm(rng[2][0], subst), _norm(rng[2][1], subst), True, val))
+                elif rng[0] == "agg" and (rng[2] or "").endswith("Range") and len(rng[3]) == 2:
+                    out.append((_norm(rng[3][0], subst), _norm(rng[3][1], subst), False, val))
+                elif rng[0] == "agg" and (rng[2] or "").endswith("RangeInclusive"):
+                    out.append((_norm(rng[3][0], subst), _norm(rng[3][1], subst), True, val))
+                else:
+                    out.append((("unknown",), ("unknown",), False, val))
+            continue
+        g = prog.fns.get(mir.callee_of(t))
+        if g is not None and depth < 3 and "type_resolver_impl" in g.id and g.name != "char_to_alphabet_index":
+            sub = {i: _norm(pv.of_operand(a), subst) for i, a in enumerate(t["args"])}
+            out += _table_writes(prog, g, None, sub, depth + 1)
+    return out
+
+
 def r3_default_types(ctx, rule="C13.R3"):
     prog = ctx.prog
     new = ctx.anchor_method("TypeResolverImpl", "new")
@@ -100,43 +222,38 @@ def r3_default_types(ctx, rule="C13.R3"):
                 init = str(pv.of_operand(k))
     ctx.decide(init is not None and "BangSingle" in init, rule, rule + ":initial-table-is-SINGLE", new.loc,
                "every letter starts as SINGLE (!)", "TypeResolverImpl::new fills the table with %s" % init)
-    # who writes `ranges`
-    writers = []
-    for fn in prog.fns.values():
-        if fn.crate != "rusty_linter" or "type_resolver_impl" not in fn.id:
-            continue
-        for blk in fn.body.blocks:
-            for s in blk["s"]:
-                if s["k"] == "assign" and any(isinstance(e, dict) and e.get("n") == "ranges" for e in s["p"][1]) \
-                        and any(isinstance(e, dict) and ("i" in e or "ci" in e) for e in s["p"][1]):
-                    writers.append(fn.name)
-    ctx.decide(set(writers) == {"fill_ranges"}, rule, rule + ":single-writer", new.loc,
-               "only fill_ranges writes table entries", "table entries are written by %s" % sorted(set(writers)))
-    fill = ctx.anchor_method("TypeResolverImpl", "fill_ranges")
+    # what DEFtype writes: for each LetterRange arm of TypeResolverImpl::set, the set of table slots
+    # written (directly, or through helpers with the call's arguments substituted) must be exactly
+    # [index(first letter), index(last letter)] - both ends included - with the DEFtype's qualifier.
+    # The writes are recognised in either spelling: an indexed store inside a counting loop
+    # (`while x <= y { ranges[x] = q; x += 1 }`) or a slice fill (`ranges[x..=y].fill(q)`).
     setf = ctx.anchor_method("TypeResolverImpl", "set")
-    pv = mir.Prov(setf.body)
-    ok = True
-    n_calls = 0
-    for b, t in setf.body.calls():
-        if mir.callee_of(t) == fill.id:
-            n_calls += 1
-            q = pv.of_operand(t["args"][-1])
-            if not (q[0] == "call" and q[1].split("::")[-1] == "qualifier"):
-                ok = False
-    ctx.decide(ok and n_calls == 2, rule, rule + ":set-uses-deftype-qualifier", setf.loc,
-               "both LetterRange arms fill with def_type.qualifier()",
-               "TypeResolverImpl::set fills ranges with something other than the DEFtype's qualifier")
-    # the value written is the qualifier parameter
-    pvf = mir.Prov(fill.body)
-    wrote_param = False
-    for blk in fill.body.blocks:
-        for s in blk["s"]:
-            if s["k"] == "assign" and any(isinstance(e, dict) and e.get("n") == "ranges" for e in s["p"][1]):
-                o = pvf.of_operand(s["r"]["o"]) if s["r"]["k"] == "use" else None
-                if o is not None and o == ("param", 3):
-                    wrote_param = True
-    ctx.decide(wrote_param, rule, rule + ":fill-writes-qualifier", fill.loc, "ranges[x] = qualifier",
-               "fill_ranges writes a value other than its qualifier argument")
+    spv = mir.Prov(setf.body)
+    lsw = [sw for sw in mir.enum_switches(prog, setf.body) if sw.adt.endswith("::LetterRange")]
+    if len(lsw) != 1:
+        raise CheckError("TypeResolverImpl::set: no match over LetterRange")
+    lsw = lsw[0]
+    for variant, want_fields in (("Single", (0, 0)), ("Range", (0, 1))):
+        tgt = lsw.arms.get(variant, lsw.otherwise)
+        region = mir.arm_region(setf.body, lsw.bb, tgt) if tgt is not None else set()
+        entries = _table_writes(prog, setf, region, {}, 0)
+        shown = [(_show(lo), _show(hi), "inclusive" if inc else "exclusive", _show(v)) for lo, hi, inc, v in entries]
+        ok = len(entries) == 1
+        if ok:
+            lo, hi, inc, val = entries[0]
+            ok = inc and _letter_field(lo) == (variant, want_fields[0]) and _letter_field(hi) == (variant, want_fields[1]) \
+                and val[0] == "call" and val[1].split("::")[-1] == "qualifier"
+        ctx.decide(ok, rule, "%s:deftype-writes:%s" % (rule, variant), setf.loc,
+                   "LetterRange::%s fills [index(first), index(last)] inclusive with def_type.qualifier()" % variant,
+                   "for LetterRange::%s TypeResolverImpl::set writes the table slots %s - not exactly the slots from "
+                   "the first to the last letter (both included) with the DEFtype's qualifier: a letter of the range "
+                   "(typically its last) keeps its old default type" % (variant, shown))
+    fill = None
+    for _b, t in setf.body.calls():
+        g = prog.fns.get(mir.callee_of(t))
+        if g is not None and "type_resolver_impl" in g.id and g.name != "char_to_alphabet_index" and _table_writes(prog, g, None, {}, 0):
+            fill = g
+    writer = fill or setf
     # same index function on the read and on the write side, and it folds case
     idx = [f for f in prog.fns.values() if f.name == "char_to_alphabet_index" and "type_resolver_impl" in f.id]
     if len(idx) != 1:
@@ -145,14 +262,14 @@ def r3_default_types(ctx, rule="C13.R3"):
     if len(read) != 1:
         raise CheckError("anchor char_to_qualifier")
     r_uses = any(mir.callee_of(t) == idx[0].id for _b, t in read[0].body.calls())
-    w_uses = sum(1 for _b, t in fill.body.calls() if mir.callee_of(t) == idx[0].id) == 2
+    w_uses = sum(1 for _b, t in writer.body.calls() if mir.callee_of(t) == idx[0].id) >= 1
     ctx.decide(r_uses and w_uses, rule, rule + ":same-index-function", idx[0].loc,
-               "char_to_qualifier and fill_ranges index through char_to_alphabet_index",
+               "char_to_qualifier and the DEFtype writer index through char_to_alphabet_index",
                "the DEFtype table is read and written through different index computations")
     folds = any((t.get("cpath") or "").endswith("to_ascii_uppercase") for _b, t in idx[0].body.calls())
     ctx.decide(folds, rule, rule + ":index-folds-case", idx[0].loc, "index computed from the upper-cased letter",
                "char_to_alphabet_index no longer folds the letter's case: `a` and `A` would index differently")
-    ctx.require(rule, 6)
+    ctx.require(rule, 5)
 
 
 def r4_one_kind_per_name(ctx, rule="C13.R4"):
